@@ -57,6 +57,7 @@ type rstmt struct {
 	op        string
 	inc       bool
 	limPath   string // "" or a jso path holding lim
+	octal     bool   // literal bounds are rendered as Go octal literals
 	// rloop
 	k, val string
 	arr    string
@@ -114,7 +115,15 @@ func renderStmts(ss []rstmt, sb *strings.Builder) {
 			if !s.inc {
 				step = "--"
 			}
-			fmt.Fprintf(sb, "for %s := %d; %s %s %s; %s%s {\n", s.v, s.init, s.v, s.op, lim, s.v, step)
+			// a literal bound is a Go integer literal: a leading zero makes it octal
+			init := strconv.FormatInt(s.init, 10)
+			if s.octal && s.init > 0 {
+				init = "0" + strconv.FormatInt(s.init, 8)
+			}
+			if s.octal && s.limPath == "" && s.lim > 0 {
+				lim = "0" + strconv.FormatInt(s.lim, 8)
+			}
+			fmt.Fprintf(sb, "for %s := %s; %s %s %s; %s%s {\n", s.v, init, s.v, s.op, lim, s.v, step)
 			renderStmts(s.body, sb)
 			sb.WriteString("}\n")
 		case "rloop":
@@ -719,6 +728,12 @@ func (g *rgen) stmt(depth int) []rstmt {
 			s.init, s.op, s.lim, s.inc = a, "!=", a+n, true
 		default:
 			s.init, s.op, s.lim, s.inc = a+n, "!=", a, false
+		}
+		if r.chance(1, 6) {
+			// bounds written as Go octal literals (010 is eight)
+			s.octal = true
+			s.init, s.lim = s.init+8, s.lim+8
+			g.count("counter loop with octal literal bounds")
 		}
 		if r.chance(1, 4) && s.inc && s.op != "!=" {
 			// limit taken from the document (may be negative: zero iterations)
